@@ -1018,7 +1018,9 @@ async fn run_c10(sc: &Value, rec: Arc<Recorder>) -> Value {
             }
         })));
     }
-    let pair = Pair::new(&cfg);
+    let mut pair = Pair::new(&cfg);
+    // endpoints that were replaced during the run (reneg = moved): closed and dropped with the rest at the end
+    let mut abandoned: Vec<Arc<Side>> = vec![];
     let mut notes: Vec<String> = vec![];
     let t0 = Instant::now();
     let mut signal_ok = true;
@@ -1058,15 +1060,32 @@ async fn run_c10(sc: &Value, rec: Arc<Recorder>) -> Value {
         }
         if round == 2 {
             // renegotiation: a second offer/answer round on the established connection
-            let by = if cfg.reneg == "offerer" { cfg.offerer.clone() } else if cfg.offerer == "A" { "B".to_string() } else { "A".to_string() };
-            let r = tokio::time::timeout(Duration::from_secs(15), pair.renegotiate(&by)).await;
+            let by = if cfg.reneg == "offerer" || cfg.reneg == "moved" { cfg.offerer.clone() } else if cfg.offerer == "A" { "B".to_string() } else { "A".to_string() };
+            let r = if cfg.reneg == "moved" {
+                // the offering endpoint moves: a fresh endpoint with the same configuration (new sockets, so every
+                // port in its description is new) takes its place and re-INVITEs the peer, which keeps its
+                // connection. The old endpoint just falls silent (no BYE, like a moved / restarted media server).
+                let fresh = Arc::new(Side::new(&by, &cfg, 0));
+                fresh.start_event_pump();
+                let old = if by == "A" { std::mem::replace(&mut pair.a, fresh) } else { std::mem::replace(&mut pair.b, fresh) };
+                abandoned.push(old);
+                log("life", &by, "moved", json!({}));
+                tokio::time::timeout(Duration::from_secs(15), pair.signal()).await
+            } else {
+                tokio::time::timeout(Duration::from_secs(15), pair.renegotiate(&by)).await
+            };
             reneg_ok = matches!(r, Ok(Ok(())));
             match r {
                 Ok(Ok(())) => {}
                 Ok(Err(e)) => notes.push(e),
                 Err(_) => notes.push("renegotiation did not finish within 15 s".into()),
             }
-            let still = pair.both_connected();
+            // (the fresh endpoint of a moved peer has to come up first)
+            let still = if cfg.reneg == "moved" {
+                wait_until(connect_bound, || pair.both_connected()).await
+            } else {
+                pair.both_connected()
+            };
             log("life", "-", "reneg", json!({"ok": reneg_ok, "by": by, "still_connected": still}));
         }
         // data channel: one message per direction, compared byte for byte
@@ -1144,11 +1163,18 @@ async fn run_c10(sc: &Value, rec: Arc<Recorder>) -> Value {
     log("life", "-", "closing", json!({}));
     pair.a.close();
     pair.b.close();
+    for o in &abandoned {
+        o.close();
+    }
     quiesce(Duration::from_millis(100), Duration::from_secs(2)).await;
     pair.a.release_aux();
     pair.b.release_aux();
     pair.a.drop_pc();
     pair.b.drop_pc();
+    for o in abandoned.drain(..) {
+        o.release_aux();
+        o.drop_pc();
+    }
     drop(pair);
     let released = wait_until(Duration::from_secs(10), || alive_tasks() <= base_tasks && socket_count() <= base_socks).await;
     log("life", "-", "done", json!({}));
